@@ -87,9 +87,9 @@ theorem scope_rules_known : ∀ k ∈ Gen.lintKinds, scopeRule k ≠ .unknown :=
 /-! ### well-formed diagnostics, exact naming (used by Props/C13.lean) -/
 
 /-- errors carry level `Error`, lints never do (this is what `Diagnostic::new` establishes: `default_level_not_error`) -/
-def WellFormed (d : Diag) : Prop := (d.isError = true → d.level = .error) ∧ (d.isError = false → d.level ≠ .error)
+def DiagWellFormed (d : Diag) : Prop := (d.isError = true → d.level = .error) ∧ (d.isError = false → d.level ≠ .error)
 
-theorem updateOne_isError_level (env : AllowEnv) (d : Diag) (h : WellFormed d) :
+theorem updateOne_isError_level (env : AllowEnv) (d : Diag) (h : DiagWellFormed d) :
     ((updateOne env d).level == Level.error) = (d.level == Level.error) := by
   unfold updateOne
   by_cases he : d.isError = true
